@@ -18,6 +18,9 @@ pub struct FuzzInput {
     /// lossy text rendering, for the reader only
     #[serde(default)]
     pub text: String,
+    /// the property whose oracle judges this input ("" = every oracle of the harness)
+    #[serde(default)]
+    pub scope: String,
 }
 
 pub fn unhex(s: &str) -> Vec<u8> {
@@ -30,12 +33,13 @@ pub fn to_hex(b: &[u8]) -> String {
 
 pub fn oracle(c: &FuzzInput, st: &mut Stats) -> Result<(), String> {
     let bytes = unhex(&c.hex);
+    let scope = if c.scope.is_empty() { None } else { Some(c.scope.as_str()) };
     let r = match c.target.as_str() {
         "fz_roundtrip" => match std::str::from_utf8(&bytes) {
-            Ok(s) => crate::fuzzing::string_oracles(s),
+            Ok(s) => crate::fuzzing::string_oracles_scoped(s, scope),
             Err(_) => Ok(()),
         },
-        "fz_api" => crate::fuzzing::api_oracles(&bytes),
+        "fz_api" => crate::fuzzing::api_oracles_scoped(&bytes, scope),
         other => Err(format!("bad replay case: unknown fuzz target {other}")),
     };
     st.class("fuzz-input-replayed");
@@ -43,14 +47,14 @@ pub fn oracle(c: &FuzzInput, st: &mut Stats) -> Result<(), String> {
 }
 
 /// The committed seed corpus of a target.
-pub fn seed_corpus(root: &Path, target: &str) -> Vec<FuzzInput> {
+pub fn seed_corpus(root: &Path, target: &str, scope: &str) -> Vec<FuzzInput> {
     let dir = root.join("corpus/fuzz-seed").join(target);
     let mut files: Vec<PathBuf> = std::fs::read_dir(&dir).map(|rd| rd.filter_map(|e| e.ok().map(|e| e.path())).collect()).unwrap_or_default();
     files.sort();
     files
         .iter()
         .filter_map(|p| std::fs::read(p).ok())
-        .map(|b| FuzzInput { target: target.to_string(), hex: to_hex(&b), text: String::from_utf8_lossy(&b).chars().take(200).collect() })
+        .map(|b| FuzzInput { target: target.to_string(), hex: to_hex(&b), text: String::from_utf8_lossy(&b).chars().take(200).collect(), scope: scope.to_string() })
         .collect()
 }
 
@@ -83,6 +87,8 @@ pub fn campaign(ctx: &mut Ctx, target: &'static str, section: &str, total_runs: 
 }
 
 fn campaign_inner(ctx: &mut Ctx, target: &'static str, section: &str, total_runs: u64, max_len: u32, t0: Instant) -> Value {
+    // (VERIF_FUZZ_RUNS overrides the campaign size, for trying the machinery out)
+    let total_runs = std::env::var("VERIF_FUZZ_RUNS").ok().and_then(|v| v.parse().ok()).unwrap_or(total_runs);
     let fuzz_dir = ctx.root.join("harness/fuzz");
     let build = Command::new("cargo")
         .args(["+nightly", "fuzz", "build", target])
@@ -129,6 +135,7 @@ fn campaign_inner(ctx: &mut Ctx, target: &'static str, section: &str, total_runs
         // half of the jobs start from the committed seed corpus, half from an empty one
         let seed_dir = ctx.root.join("corpus/fuzz-seed").join(target);
         let mut cmd = Command::new(&exe);
+        cmd.env("PV_FUZZ_SCOPE", ctx.prop);
         cmd.arg(&corpus);
         if j % 2 == 0 && seed_dir.is_dir() {
             cmd.arg(&seed_dir);
@@ -200,7 +207,7 @@ fn campaign_inner(ctx: &mut Ctx, target: &'static str, section: &str, total_runs
     for a in &artifacts {
         let Ok(bytes) = std::fs::read(a) else { continue };
         let name = a.file_name().map(|n| n.to_string_lossy().to_string()).unwrap_or_default();
-        let input = FuzzInput { target: target.to_string(), hex: to_hex(&bytes), text: String::from_utf8_lossy(&bytes).chars().take(300).collect() };
+        let input = FuzzInput { target: target.to_string(), hex: to_hex(&bytes), text: String::from_utf8_lossy(&bytes).chars().take(300).collect(), scope: ctx.prop.to_string() };
         if name.starts_with("timeout-") || name.starts_with("oom-") || name.starts_with("slow-unit-") {
             ctx.infra_errors.push(format!("fuzz artefact {name} (timeout / memory): inconclusive, input hex {}", input.hex));
             continue;
